@@ -1,0 +1,234 @@
+//! Verification hooks. Compiled only with the cargo feature `verif` (off by default).
+//!
+//! Nothing in here changes engine behaviour unless a harness arms it at run time:
+//! * `io_event`   - numbered I/O events per thread class; optional trace; optional `_exit` at the k-th
+//!                  event of a class (process-crash injection)
+//! * failpoints   - `should_fail(kind)` / `cqe_override(idx, res)` return injected failures when armed
+//! * `sched_point`- scheduling points (no-op unless a controller closure is installed)
+//! * `clock_override` - file-naming clock
+//! * counters / accessors used by monitors (reclaim cycles)
+use std::cell::Cell;
+use std::sync::atomic::{AtomicBool, AtomicI64, AtomicU64, Ordering};
+use std::sync::{Arc, Mutex, OnceLock, RwLock};
+
+// ---------------------------------------------------------------------------------------------
+// scheduling points
+pub type SchedFn = dyn Fn(&'static str) + Send + Sync;
+fn sched_slot() -> &'static RwLock<Option<Arc<SchedFn>>> {
+    static S: OnceLock<RwLock<Option<Arc<SchedFn>>>> = OnceLock::new();
+    S.get_or_init(|| RwLock::new(None))
+}
+pub fn install_scheduler(f: Option<Arc<SchedFn>>) {
+    *sched_slot().write().unwrap() = f;
+}
+#[inline]
+pub fn sched_point(site: &'static str) {
+    let f = match sched_slot().read() {
+        Ok(g) => g.clone(),
+        Err(_) => None,
+    };
+    if let Some(f) = f {
+        f(site);
+    }
+}
+
+// ---------------------------------------------------------------------------------------------
+// thread classes: 0 = main (API caller), 1 = clean-marker persister, 2 = background fsync/reclaim
+thread_local! { static CLASS: Cell<usize> = const { Cell::new(0) }; }
+pub fn set_thread_class(c: usize) {
+    CLASS.with(|v| v.set(c.min(2)));
+}
+pub fn thread_class() -> usize {
+    CLASS.with(|v| v.get())
+}
+const CLASS_NAMES: [&str; 3] = ["main", "clean", "bg"];
+
+static EVENTS: [AtomicU64; 3] = [AtomicU64::new(0), AtomicU64::new(0), AtomicU64::new(0)];
+static CRASH_AT: [AtomicU64; 3] = [AtomicU64::new(0), AtomicU64::new(0), AtomicU64::new(0)];
+static TRACE_ON: AtomicBool = AtomicBool::new(false);
+static SEQ: AtomicU64 = AtomicU64::new(0);
+
+#[derive(Clone, Debug)]
+pub struct IoEvent {
+    pub seq: u64,
+    pub class: &'static str,
+    pub n: u64,
+    pub kind: &'static str,
+    pub path: String,
+    pub off: u64,
+    pub len: u64,
+    pub bytes: Option<Vec<u8>>,
+}
+fn trace() -> &'static Mutex<Vec<IoEvent>> {
+    static T: OnceLock<Mutex<Vec<IoEvent>>> = OnceLock::new();
+    T.get_or_init(|| Mutex::new(Vec::new()))
+}
+/// crash when thread class `class` is about to perform its `k`-th event (1-based); 0 disarms
+pub fn set_crash_at(class: usize, k: u64) {
+    CRASH_AT[class.min(2)].store(k, Ordering::SeqCst);
+}
+pub fn set_trace(on: bool) {
+    TRACE_ON.store(on, Ordering::SeqCst);
+}
+pub fn event_count(class: usize) -> u64 {
+    EVENTS[class.min(2)].load(Ordering::SeqCst)
+}
+pub fn take_trace() -> Vec<IoEvent> {
+    std::mem::take(&mut *trace().lock().unwrap())
+}
+/// Insert a marker (e.g. API call / return stamps) into the trace.
+pub fn trace_mark(kind: &'static str, text: &str) {
+    if TRACE_ON.load(Ordering::Relaxed) {
+        let seq = SEQ.fetch_add(1, Ordering::SeqCst) + 1;
+        trace().lock().unwrap().push(IoEvent {
+            seq,
+            class: CLASS_NAMES[thread_class()],
+            n: 0,
+            kind,
+            path: text.to_string(),
+            off: 0,
+            len: 0,
+            bytes: None,
+        });
+    }
+}
+
+/// Called *before* the I/O it names takes effect.
+pub fn io_event(kind: &'static str, path: &str, off: u64, len: u64) {
+    io_event_bytes(kind, path, off, len, None)
+}
+pub fn io_event_bytes(kind: &'static str, path: &str, off: u64, len: u64, bytes: Option<&[u8]>) {
+    let c = thread_class();
+    let n = EVENTS[c].fetch_add(1, Ordering::SeqCst) + 1;
+    if TRACE_ON.load(Ordering::Relaxed) {
+        let seq = SEQ.fetch_add(1, Ordering::SeqCst) + 1;
+        trace().lock().unwrap().push(IoEvent {
+            seq,
+            class: CLASS_NAMES[c],
+            n,
+            kind,
+            path: path.to_string(),
+            off,
+            len,
+            bytes: bytes.map(|b| b.to_vec()),
+        });
+    }
+    let k = CRASH_AT[c].load(Ordering::SeqCst);
+    if k != 0 && n == k {
+        crash_now();
+    }
+}
+pub fn crash_now() -> ! {
+    unsafe { libc::_exit(137) }
+}
+
+// ---------------------------------------------------------------------------------------------
+// failpoints: the `nth` (0-based) hit of `kind` fails, once
+static FAILPOINT: Mutex<Option<(String, i64)>> = Mutex::new(None);
+static FAIL_HITS: AtomicU64 = AtomicU64::new(0);
+pub fn arm_failpoint(kind: &str, nth: i64) {
+    *FAILPOINT.lock().unwrap() = Some((kind.to_string(), nth));
+}
+pub fn disarm_failpoint() {
+    *FAILPOINT.lock().unwrap() = None;
+}
+pub fn failpoint_hits() -> u64 {
+    FAIL_HITS.load(Ordering::SeqCst)
+}
+pub fn should_fail(kind: &str) -> bool {
+    let mut g = match FAILPOINT.lock() {
+        Ok(g) => g,
+        Err(_) => return false,
+    };
+    if let Some((k, n)) = g.as_mut() {
+        if k == kind {
+            if *n == 0 {
+                *g = None;
+                FAIL_HITS.fetch_add(1, Ordering::SeqCst);
+                return true;
+            }
+            *n -= 1;
+        }
+    }
+    false
+}
+pub fn injected(kind: &str) -> std::io::Error {
+    std::io::Error::new(std::io::ErrorKind::Other, format!("verif: injected {} failure", kind))
+}
+
+// io_uring completion override: entry index -> forced result (negative errno or short count)
+static CQE_IDX: AtomicI64 = AtomicI64::new(-1);
+static CQE_RES: AtomicI64 = AtomicI64::new(0);
+pub fn arm_cqe_override(idx: i64, res: i64) {
+    CQE_RES.store(res, Ordering::SeqCst);
+    CQE_IDX.store(idx, Ordering::SeqCst);
+}
+pub fn cqe_override(idx: u64, res: i32) -> i32 {
+    let want = CQE_IDX.load(Ordering::SeqCst);
+    if want >= 0 && want as u64 == idx {
+        CQE_IDX.store(-1, Ordering::SeqCst);
+        FAIL_HITS.fetch_add(1, Ordering::SeqCst);
+        return CQE_RES.load(Ordering::SeqCst) as i32;
+    }
+    res
+}
+
+// Crash "inside" an io_uring batch: perform the chosen subset of the prepared writes with pwrite
+// and exit before the ring is submitted - the states the kernel may leave behind when the process
+// dies between independent completions.
+static BATCH_CRASH: Mutex<Option<(u64, Vec<usize>)>> = Mutex::new(None);
+static BATCH_SEEN: AtomicU64 = AtomicU64::new(0);
+/// at the `nth` (0-based) io_uring batch submission, write only the SQEs listed in `keep`, then exit
+pub fn arm_batch_crash(nth: u64, keep: Vec<usize>) {
+    *BATCH_CRASH.lock().unwrap() = Some((nth, keep));
+}
+pub fn batches_seen() -> u64 {
+    BATCH_SEEN.load(Ordering::SeqCst)
+}
+pub fn uring_batch_presubmit(sqes: &[(i32, u64, &[u8])]) {
+    let seen = BATCH_SEEN.fetch_add(1, Ordering::SeqCst);
+    let armed = BATCH_CRASH.lock().ok().and_then(|g| g.clone());
+    if let Some((nth, keep)) = armed {
+        if nth == seen {
+            for i in keep {
+                if let Some((fd, off, buf)) = sqes.get(i) {
+                    unsafe {
+                        libc::pwrite(*fd, buf.as_ptr() as *const libc::c_void, buf.len(), *off as libc::off_t);
+                    }
+                }
+            }
+            crash_now();
+        }
+    }
+}
+
+// ---------------------------------------------------------------------------------------------
+// clock for WAL segment naming
+static CLOCK: AtomicU64 = AtomicU64::new(0);
+/// 0 = real clock; otherwise the next segment is named as if the wall clock showed `ms`
+pub fn set_clock(ms: u64) {
+    CLOCK.store(ms, Ordering::SeqCst);
+}
+pub fn clock_override() -> Option<u128> {
+    match CLOCK.load(Ordering::SeqCst) {
+        0 => None,
+        v => Some(v as u128),
+    }
+}
+
+// ---------------------------------------------------------------------------------------------
+// background worker progress
+static BG_CYCLES: AtomicU64 = AtomicU64::new(0);
+static BG_RECLAIMS: AtomicU64 = AtomicU64::new(0);
+pub fn bg_cycle() {
+    BG_CYCLES.fetch_add(1, Ordering::SeqCst);
+}
+pub fn bg_reclaim_pass() {
+    BG_RECLAIMS.fetch_add(1, Ordering::SeqCst);
+}
+pub fn bg_cycles() -> u64 {
+    BG_CYCLES.load(Ordering::SeqCst)
+}
+pub fn bg_reclaim_passes() -> u64 {
+    BG_RECLAIMS.load(Ordering::SeqCst)
+}
